@@ -138,7 +138,7 @@ R3(pre, out) ==
           /\ w.pd /\ JHasP(pre.jout, w.seq)
           /\ LET row == JRowP(pre.jout, w.seq) IN
              /\ w.pay = row.pay /\ w.kind = row.kind
-             /\ w.ost = (IF row.ost # "" THEN row.ost ELSE row.st) \/ w.ost = row.st
+             /\ w.ost = row.st      \* also when the journaled copy carries an OrigSendingTime of its own
 \* R4 session-level messages are never retransmitted; gap fills carry GapFillFlag and move forward
 R4(out) ==
     \A k \in DOMAIN out.wrote :
